@@ -8,8 +8,9 @@ Universe: root hints `. NS h.` with h. holding an A and/or an AAAA record (symbo
 The first upstream reply is a referral `y. NS n.x.` with glue A and/or AAAA for n.x. (symbolic, possibly none);
 the next reply to a question for c.y. is the answer; replies to address look-ups for n.x. are "no reply"."""
 from localcommon import *
-import models_misc
+import models_misc, re
 from modes import FWD_IP
+from check import native_test, save_replay
 
 V4 = lambda last: Agg('Ipv4Addr', None, [Cell(Int(x, 'u8')) for x in (10, 9, 9, last)])
 V6 = lambda last: Agg('Ipv6Addr', None, [Cell(Int(0xfd00, 'u16'))] + [Cell(Int(0, 'u16')) for _ in range(6)] + [Cell(Int(last, 'u16'))])
@@ -21,10 +22,12 @@ class Family(Harness):
 
     def run(self, ex):
         w = ex.w
+        ex.env['hash_orders'] = True          # HashMap iteration order (cache partitions, zone nodes) is a decision, not insertion order
         mode = MODES[c04.choose(ex, 'protocol_mode', 4)]
         h4 = bool(c04.choose(ex, 'hint_has_v4', 2)); h6 = bool(c04.choose(ex, 'hint_has_v6', 2))
         g4 = bool(c04.choose(ex, 'glue_has_v4', 2)); g6 = bool(c04.choose(ex, 'glue_has_v6', 2))
         forwarding = bool(c04.choose(ex, 'forwarding', 2)) if self.with_forwarding else False
+        self._cfg = {'protocol_mode': MODES.index(mode), 'hint_has_v4': int(h4), 'hint_has_v6': int(h6), 'glue_has_v4': int(g4), 'glue_has_v6': int(g6), 'forwarding': int(forwarding)}
         t0 = Int(1 << 40, 'u64'); ex.env['clock'] = lambda ex_: Agg('Instant', None, [Cell(t0)])
         nm = lambda labels: c02.conc_name(w, labels)
         ROOT, H, Y, NY, CY = nm([]), nm([[0x68]]), nm([[0x79]]), nm([[0x6e], [0x78]]), nm([[0x63], [0x79]])
@@ -72,7 +75,7 @@ class Family(Harness):
         if forwarding:
             for addr, qname, qt in calls:
                 ex.require(fam(addr) == 4 and port(addr) == 53 and seq(ex, addr.fields[0].v.fields[0].v.fields[0].v, Agg('Ipv4Addr', None, [Cell(Int(x, 'u8')) for x in FWD_IP])) is True, 'forwarder', 'forwarding mode queried something other than the configured forwarder')
-            return {'cls': 'forwarding', 'sample': {'mode': mode, 'upstream_queries': trace}}
+            return {'cls': 'forwarding', 'sample': {'mode': mode, 'upstream_queries': trace}, 'vs': (dict(self._cfg), trace)}
         for addr, qname, qt in calls:
             ex.require(port(addr) == 5353, 'port', 'an upstream query went to a port other than the configured upstream port')
             if mode == 'OnlyV4': ex.require(fam(addr) == 4, 'family', 'only-v4: an upstream nameserver was contacted at an IPv6 address')
@@ -96,12 +99,185 @@ class Family(Harness):
             ex.require(lookups[0] == ('A' if pref == 4 else 'AAAA'), 'lookup-order', f'{mode}: looked up {lookups[0]} first for a nameserver address')
             if mode == 'OnlyV4': ex.require(all(x == 'A' for x in lookups), 'family', 'only-v4: looked up an AAAA address for a nameserver')
             if mode == 'OnlyV6': ex.require(all(x == 'AAAA' for x in lookups), 'family', 'only-v6: looked up an A address for a nameserver')
-        return {'cls': mode + ('-lookup' if lookups else '') + ('-answered' if res.variant == 0 else '-failed'), 'sample': {'mode': mode, 'hint_addresses': {'v4': h4, 'v6': h6}, 'glue': {'v4': g4, 'v6': g6}, 'upstream_queries': trace}}
+        return {'vs': (dict(self._cfg), trace), 'cls': mode + ('-lookup' if lookups else '') + ('-answered' if res.variant == 0 else '-failed'), 'sample': {'mode': mode, 'hint_addresses': {'v4': h4, 'v6': h6}, 'glue': {'v4': g4, 'v6': g6}, 'upstream_queries': trace}}
 
     def finding_key(self, v): return f"C18 {v.get('tag')}"
 
+    def native_validate(self, world, vsamples):
+        """every explored configuration is also run natively over loopback sockets (real transport, real resolver) and
+        the sequence of upstream queries the fake nameservers saw is compared with the interpreter's trace"""
+        rows = []
+        for m, trace in vsamples:
+            g = lambda k: int(m.get(k, 0) or 0)
+            want = '|'.join(t.rsplit(':', 1)[0] for t in trace)
+            rows.append('(ProtocolMode::%s, %s, %s, %s, %s, %s, "%s")' % (MODES[g('protocol_mode')], *[str(bool(g(k))).lower() for k in ('hint_has_v4', 'hint_has_v6', 'glue_has_v4', 'glue_has_v6', 'forwarding')], want))
+        src = REPLAY_RS + '''
+#[test]
+fn crossval() {
+    let cases: Vec<(ProtocolMode, bool, bool, bool, bool, bool, &str)> = vec![%s];
+    let mut bad = 0;
+    for (i, (mode, h4, h6, g4, g6, fwd, want)) in cases.iter().enumerate() {
+        let c = Case { mode: *mode, h4: *h4, h6: *h6, g4: *g4, g6: *g6, fwd: *fwd };
+        let (_, log) = match run_case(&c) { Some(x) => x, None => { println!("VERIF-NOSOCKETS"); return; } };
+        let got = trace(&log).join("|");
+        if &got != want { bad += 1; println!("VERIF-MISMATCH case {i} {c:?}: interpreter {want}, native {got}"); }
+    }
+    println!("VERIF-CHECKED {} mismatches {}", cases.len(), bad);
+    assert!(bad == 0);
+}
+''' % ',\n'.join(rows)
+        res = native_test(world, 'resolved', 'crates/resolved/src/main.rs', src, 'crossval', profiles=['dev'], lib=False)
+        okk, txt = res.get('dev', (None, ''))
+        mm = re.search(r'VERIF-CHECKED (\d+) mismatches (\d+)', txt)
+        if 'VERIF-NOSOCKETS' in txt: return len(vsamples), 0, 'loopback sockets unavailable: native cross-validation skipped'
+        if not mm: return 0, 0, 'cross-validation test did not run: ' + txt[-400:]
+        mism = [l for l in txt.split('\n') if 'VERIF-MISMATCH' in l]
+        return int(mm.group(1)), int(mm.group(2)), '; '.join(mism[:3])
+
     def replay(self, world, v):
-        return None, None, 'needs live upstream exchanges (sockets): no native replay; the counterexample trace is in the evidence'
+        """native replay over live loopback sockets: the real `dns_resolver::resolve`, the real transport
+        (util/nameserver.rs), fake nameservers on 127.0.0.1 / 127.0.0.2 / ::1 at a free port that serve the same
+        referral/answer script as the symbolic stub and log where each query arrived; the same obligations are then
+        asserted over that log"""
+        m = v.get('model') or {}
+        g = lambda k: int(m.get(k, 0) or 0)
+        case = 'Case { mode: ProtocolMode::%s, h4: %s, h6: %s, g4: %s, g6: %s, fwd: %s }' % (MODES[g('protocol_mode')], *[str(bool(g(k))).lower() for k in ('hint_has_v4', 'hint_has_v6', 'glue_has_v4', 'glue_has_v6', 'forwarding')])
+        src = REPLAY_RS + '\n#[test]\nfn replay() {\n    let c = %s;\n    // the outcome may depend on the randomly keyed HashMap order of std: every trial must satisfy the obligations\n    for _ in 0..24 { match run_case(&c) { Some((ok, log)) => obligations(&c, ok, &log), None => { println!("VERIF-NOSOCKETS"); panic!("VERIF-NOSOCKETS could not bind loopback sockets"); } } }\n}\n' % case
+        res = native_test(world, 'resolved', 'crates/resolved/src/main.rs', src, 'replay', release=True, lib=False)
+        txt = '\n'.join(f'[{k}] {t[-900:]}' for k, (_, t) in res.items())
+        if any('VERIF-NOSOCKETS' in t for _, t in res.values()):
+            return None, None, 'loopback sockets unavailable for the native replay: ' + txt[-300:]
+        path = save_replay(self.pid, self.name, src, {'model': m, 'tag': v.get('tag'), 'detail': v.get('detail')})
+        oks = [ok for ok, _ in res.values()]
+        if any(ok is False and 'VERIF-VIOLATED' in t for ok, t in res.values()): return True, path, txt
+        if all(ok is True for ok in oks) and oks: return False, path, txt
+        return None, path, txt
+
+
+REPLAY_RS = r'''use super::*;
+use std::io::{Read, Write};
+use std::net::{IpAddr, Ipv6Addr};
+use std::sync::Mutex;
+
+#[derive(Debug, Clone, Copy)]
+struct Case { mode: ProtocolMode, h4: bool, h6: bool, g4: bool, g6: bool, fwd: bool }
+
+fn name(s: &str) -> DomainName { DomainName::from_dotted_string(s).unwrap() }
+
+struct Script { case: Case, log: Vec<(IpAddr, Question)>, ncy: usize }
+
+fn reply(state: &Mutex<Script>, local: IpAddr, octets: &[u8], record: bool) -> Option<Vec<u8>> {
+    let req = Message::from_octets(octets).ok()?;
+    let q = req.questions.first()?.clone();
+    let mut st = state.lock().unwrap();
+    if record { st.log.push((local, q.clone())); }
+    let mut resp = req.make_response();
+    resp.header.is_authoritative = true; resp.header.recursion_available = false;
+    let rr = |n: &str, d: RecordTypeWithData| ResourceRecord { name: name(n), rtype_with_data: d, rclass: RecordClass::IN, ttl: 300 };
+    if q.name == name("c.y.") {
+        if record { st.ncy += 1; }
+        if st.ncy == 1 && !st.case.fwd {
+            resp.authority.push(rr("y.", RecordTypeWithData::NS { nsdname: name("n.x.") }));
+            if st.case.g4 { resp.additional.push(rr("n.x.", RecordTypeWithData::A { address: Ipv4Addr::new(127, 0, 0, 2) })); }
+            if st.case.g6 { resp.additional.push(rr("n.x.", RecordTypeWithData::AAAA { address: Ipv6Addr::LOCALHOST })); }
+        } else {
+            resp.answers.push(rr("c.y.", RecordTypeWithData::A { address: Ipv4Addr::new(10, 0, 0, 77) }));
+        }
+    } else {
+        resp.header.rcode = Rcode::ServerFailure;          // "no usable reply" for nameserver-address look-ups
+    }
+    resp.to_octets().ok().map(|b| b.to_vec())
+}
+
+fn serve(state: &'static Mutex<Script>) -> Option<u16> {
+    // one free port on which 127.0.0.1, 127.0.0.2 and ::1 can all be bound, UDP and TCP
+    'ports: for _ in 0..50 {
+        let probe = std::net::UdpSocket::bind("127.0.0.1:0").ok()?;
+        let port = probe.local_addr().ok()?.port();
+        drop(probe);
+        let ips: [IpAddr; 3] = [Ipv4Addr::new(127, 0, 0, 1).into(), Ipv4Addr::new(127, 0, 0, 2).into(), Ipv6Addr::LOCALHOST.into()];
+        let mut udps = Vec::new(); let mut tcps = Vec::new();
+        for ip in ips {
+            match (std::net::UdpSocket::bind((ip, port)), std::net::TcpListener::bind((ip, port))) {
+                (Ok(u), Ok(t)) => { udps.push((ip, u)); tcps.push((ip, t)); }
+                _ => continue 'ports,
+            }
+        }
+        for (ip, u) in udps {
+            std::thread::spawn(move || { let mut buf = [0u8; 1500];
+                while let Ok((n, peer)) = u.recv_from(&mut buf) { if let Some(r) = reply(state, ip, &buf[..n], true) { let _ = u.send_to(&r, peer); } } });
+        }
+        for (ip, t) in tcps {
+            std::thread::spawn(move || { for c in t.incoming() { if let Ok(mut c) = c {
+                let mut l = [0u8; 2]; if c.read_exact(&mut l).is_err() { continue; }
+                let mut b = vec![0u8; u16::from_be_bytes(l) as usize]; if c.read_exact(&mut b).is_err() { continue; }
+                // the real transport reaches IPv6 servers over TCP only (its UDP socket is bound to 0.0.0.0), and retries
+                // IPv4 servers over TCP after an unusable UDP reply: record TCP arrivals for ::1 only
+                if let Some(r) = reply(state, ip, &b, ip.is_ipv6()) { let _ = c.write_all(&(r.len() as u16).to_be_bytes()); let _ = c.write_all(&r); }
+            } } });
+        }
+        return Some(port);
+    }
+    None
+}
+
+/// run one configuration against fresh fake nameservers; -> (resolution succeeded, queries in arrival order)
+fn run_case(c: &Case) -> Option<(bool, Vec<(IpAddr, Question)>)> {
+    let state: &'static Mutex<Script> = Box::leak(Box::new(Mutex::new(Script { case: *c, log: Vec::new(), ncy: 0 })));
+    let port = serve(state)?;
+    let mut root = Zone::new(DomainName::root_domain(), None);
+    root.insert(&DomainName::root_domain(), RecordTypeWithData::NS { nsdname: name("h.") }, 300);
+    if c.h4 { root.insert(&name("h."), RecordTypeWithData::A { address: Ipv4Addr::new(127, 0, 0, 1) }, 300); }
+    if c.h6 { root.insert(&name("h."), RecordTypeWithData::AAAA { address: Ipv6Addr::LOCALHOST }, 300); }
+    let mut zones = Zones::new(); zones.insert(root);
+    let cache = SharedCache::new();
+    let question = Question { name: name("c.y."), qtype: QueryType::Record(RecordType::A), qclass: QueryClass::Record(RecordClass::IN) };
+    let fwd = if c.fwd { Some(SocketAddr::new(Ipv4Addr::new(127, 0, 0, 1).into(), port)) } else { None };
+    let rt = tokio::runtime::Builder::new_current_thread().enable_all().build().unwrap();
+    let (_metrics, result) = rt.block_on(resolve(true, c.mode, port, fwd, &zones, &cache, &question));
+    let log = state.lock().unwrap().log.clone();
+    Some((result.is_ok(), log))
+}
+
+fn trace(log: &[(IpAddr, Question)]) -> Vec<String> {
+    log.iter().map(|(ip, q)| format!("{} {} -> v{}", q.name.to_dotted_string(), match q.qtype { QueryType::Record(t) => format!("Record/{t:?}"), other => format!("{other:?}") }, if ip.is_ipv4() { 4 } else { 6 })).collect()
+}
+
+fn obligations(c: &Case, ok: bool, log: &[(IpAddr, Question)]) {
+    let fam = |ip: &IpAddr| if ip.is_ipv4() { 4 } else { 6 };
+    println!("VERIF-TRACE result ok={} log={:?}", ok, trace(log));
+    if c.fwd {
+        for (ip, _) in log { assert!(*ip == IpAddr::from(Ipv4Addr::new(127, 0, 0, 1)), "VERIF-VIOLATED forwarding mode queried {ip} instead of the configured forwarder"); }
+        assert!(!log.is_empty(), "VERIF-VIOLATED forwarding mode never reached the configured forwarder address and port");
+        return;
+    }
+    let only4 = matches!(c.mode, ProtocolMode::OnlyV4); let only6 = matches!(c.mode, ProtocolMode::OnlyV6);
+    let pref = if matches!(c.mode, ProtocolMode::OnlyV4 | ProtocolMode::PreferV4) { 4 } else { 6 };
+    for (ip, _) in log {
+        assert!(!(only4 && fam(ip) != 4), "VERIF-VIOLATED only-v4: an upstream nameserver was contacted at {ip}");
+        assert!(!(only6 && fam(ip) != 6), "VERIF-VIOLATED only-v6: an upstream nameserver was contacted at {ip}");
+    }
+    let cy: Vec<&(IpAddr, Question)> = log.iter().filter(|(_, q)| q.name == name("c.y.")).collect();
+    if let Some((ip, _)) = cy.first() {
+        let has_pref = if pref == 4 { c.h4 } else { c.h6 };
+        assert!(!(has_pref && fam(ip) != pref), "VERIF-VIOLATED the root nameserver has an address of the preferred family but was contacted at {ip}");
+    } else {
+        let usable = (c.h4 && !only6) || (c.h6 && !only4);
+        assert!(!usable, "VERIF-VIOLATED no upstream query arrived at the configured port although the hint nameserver has a usable address");
+    }
+    if cy.len() >= 2 {
+        let gpref = if pref == 4 { c.g4 } else { c.g6 };
+        assert!(!(gpref && fam(&cy[1].0) != pref), "VERIF-VIOLATED the delegated nameserver has glue of the preferred family but was contacted at {}", cy[1].0);
+    }
+    let lookups: Vec<RecordType> = log.iter().filter(|(_, q)| q.name == name("n.x.")).filter_map(|(_, q)| if let QueryType::Record(t) = q.qtype { Some(t) } else { None }).collect();
+    if let Some(first) = lookups.first() {
+        let want = if pref == 4 { RecordType::A } else { RecordType::AAAA };
+        assert!(*first == want, "VERIF-VIOLATED looked up {first:?} first for a nameserver address");
+        assert!(!(only4 && lookups.iter().any(|t| *t != RecordType::A)), "VERIF-VIOLATED only-v4: looked up an AAAA address for a nameserver");
+        assert!(!(only6 && lookups.iter().any(|t| *t != RecordType::AAAA)), "VERIF-VIOLATED only-v6: looked up an A address for a nameserver");
+    }
+}
+'''
 
 
 def harnesses(world, tier, seed):
